@@ -173,10 +173,11 @@ type vWorld struct {
 	r       *controllers.ServiceReconciler
 	reloadC chan event.GenericEvent
 	// work queue
-	svcQ    map[string]bool
-	reload  bool
-	poolEvt bool
-	inPass  bool
+	svcQ     map[string]bool
+	reload   bool
+	poolEvt  bool
+	inPass   bool
+	listFail bool
 	// a pass the script does not know about (a reload request the model did not expect is pending)
 	unscripted bool
 	// fault injection for the next UpdateStatus
@@ -307,6 +308,10 @@ func (r vReader) List(_ context.Context, list client.ObjectList, _ ...client.Lis
 	l, ok := list.(*v1.ServiceList)
 	if !ok {
 		return fmt.Errorf("unexpected List of %T", list)
+	}
+	if r.w.listFail {
+		r.w.listFail = false
+		return fmt.Errorf("verif: injected List failure")
 	}
 	names := kit.SortedKeys(r.w.cache)
 	r.w.rnd.Shuffle(len(names), func(i, j int) { names[i], names[j] = names[j], names[i] })
@@ -559,6 +564,23 @@ func (w *vWorld) exec(raw json.RawMessage, a vAct, idx int) {
 		w.writes = nil
 		w.lastRes = ""
 		w.observe(endIdx, json.RawMessage(`{"op":"PassEnd"}`), "PassEnd", "", false)
+		return
+	case "ListFail":
+		// the List call of the re-sync pass fails: the real Reconcile returns an error and is retried
+		if w.inPass || !w.reload {
+			return
+		}
+		w.listFail = true
+		crashed := w.runGuarded(func() {
+			_, err := w.r.Reconcile(context.Background(), ctrl.Request{NamespacedName: types.NamespacedName{Namespace: "metallbreload", Name: "reload"}})
+			if err == nil && !w.listFail {
+				// the failure was consumed but the pass reported success: its request is served
+				w.reload = false
+			}
+		})
+		w.listFail = false
+		w.drainReload()
+		w.observe(idx, raw, a.Op, "", crashed)
 		return
 	case "PassStep", "PassEnd":
 		// outside a running pass (the script diverged from the real run): nothing to do
